@@ -89,10 +89,12 @@ pub fn get_diff_ratio(ops: &[DiffOp], old_len: usize, new_len: usize) -> f32 {
         })
         .sum::<usize>();
     let len = old_len + new_len;
-    if len == 0 {
+    if len == 0 || matches * 2 == len {
         1.0
     } else {
-        2.0 * matches as f32 / len as f32
+        // for very long and nearly identical sequences the quotient rounds
+        // to 1.0 in f32; never report a complete match in that case
+        (2.0 * matches as f32 / len as f32).min(1.0 - f32::EPSILON / 2.0)
     }
 }
 
